@@ -1,0 +1,202 @@
+//! Read-only inspector (compiled only with `--cfg flurry_verif`).
+#![allow(missing_docs, missing_debug_implementations, unreachable_pub, dead_code)]
+
+use super::*;
+use crate::node::{BinEntry, TreeNode};
+use crate::raw::Table;
+use crate::reclaim::{Guard, Shared};
+use std::sync::atomic::Ordering;
+
+pub struct NodeSnap<'g, K, V> {
+    pub addr: usize,
+    pub hash: u64,
+    pub key: &'g K,
+    pub value_addr: usize,
+    pub value: Option<&'g V>,
+    pub next: usize,
+    pub lock_addr: usize,
+    pub locked: bool,
+}
+
+pub struct TreeNodeSnap<'g, K, V> {
+    pub node: NodeSnap<'g, K, V>,
+    pub parent: usize,
+    pub left: usize,
+    pub right: usize,
+    pub prev: usize,
+    pub red: bool,
+}
+
+pub enum BinSnap<'g, K, V> {
+    Empty,
+    Moved,
+    List(Vec<NodeSnap<'g, K, V>>),
+    Tree {
+        addr: usize,
+        lock_addr: usize,
+        locked: bool,
+        lock_state: i64,
+        waiter_null: bool,
+        root: usize,
+        first: usize,
+        /// in `first`/`next` order
+        nodes: Vec<TreeNodeSnap<'g, K, V>>,
+    },
+}
+
+pub struct TableSnap<'g, K, V> {
+    pub addr: usize,
+    pub len: usize,
+    pub bins: Vec<BinSnap<'g, K, V>>,
+    /// the table the forwarding nodes of this table point to (followed iff some bin is `Moved`)
+    pub forward: Option<Box<TableSnap<'g, K, V>>>,
+}
+
+pub struct Snapshot<'g, K, V> {
+    pub table: Option<TableSnap<'g, K, V>>,
+    pub next_table_addr: usize,
+    pub transfer_index: isize,
+    pub count: isize,
+    pub size_ctl: isize,
+}
+
+fn node_snap<'g, K, V>(addr: usize, n: &'g crate::node::Node<K, V>, guard: &'g Guard<'_>) -> NodeSnap<'g, K, V> {
+    let v = n.value.load(Ordering::SeqCst, guard);
+    NodeSnap {
+        addr,
+        hash: n.hash,
+        key: &n.key,
+        value_addr: unsafe { v.as_ptr() } as usize,
+        value: unsafe { v.as_ref() }.map(|l| &**l),
+        next: unsafe { n.next.load(Ordering::SeqCst, guard).as_ptr() } as usize,
+        lock_addr: &n.lock as *const _ as usize,
+        locked: n.lock.is_locked(),
+    }
+}
+
+fn p<T>(s: Shared<'_, T>) -> usize {
+    unsafe { s.as_ptr() as usize }
+}
+
+fn table_snap<'g, K, V>(t: Shared<'g, Table<K, V>>, guard: &'g Guard<'_>, depth: usize) -> Option<TableSnap<'g, K, V>> {
+    if t.is_null() {
+        return None;
+    }
+    let addr = p(t);
+    let t = unsafe { t.deref() };
+    let mut bins = Vec::with_capacity(t.len());
+    let mut any_moved = false;
+    for i in 0..t.len() {
+        let b = t.bin(i, guard);
+        if b.is_null() {
+            bins.push(BinSnap::Empty);
+            continue;
+        }
+        let baddr = p(b);
+        match **unsafe { b.deref() } {
+            BinEntry::Moved => {
+                any_moved = true;
+                bins.push(BinSnap::Moved);
+            }
+            BinEntry::Node(_) => {
+                let mut v = Vec::new();
+                let mut e = b;
+                let mut fuel = 1usize << 20;
+                while !e.is_null() && fuel > 0 {
+                    fuel -= 1;
+                    let n = unsafe { e.deref() }.as_node().unwrap();
+                    v.push(node_snap(p(e), n, guard));
+                    e = n.next.load(Ordering::SeqCst, guard);
+                }
+                bins.push(BinSnap::List(v));
+            }
+            BinEntry::Tree(ref tb) => {
+                let mut v = Vec::new();
+                let first = tb.first.load(Ordering::SeqCst, guard);
+                let mut e = first;
+                let mut fuel = 1usize << 20;
+                while !e.is_null() && fuel > 0 {
+                    fuel -= 1;
+                    let tn = unsafe { TreeNode::get_tree_node(e) };
+                    v.push(TreeNodeSnap {
+                        node: node_snap(p(e), &tn.node, guard),
+                        parent: p(tn.parent.load(Ordering::SeqCst, guard)),
+                        left: p(tn.left.load(Ordering::SeqCst, guard)),
+                        right: p(tn.right.load(Ordering::SeqCst, guard)),
+                        prev: p(tn.prev.load(Ordering::SeqCst, guard)),
+                        red: tn.red.load(Ordering::SeqCst),
+                    });
+                    e = tn.node.next.load(Ordering::SeqCst, guard);
+                }
+                bins.push(BinSnap::Tree {
+                    addr: baddr,
+                    lock_addr: &tb.lock as *const _ as usize,
+                    locked: tb.lock.is_locked(),
+                    lock_state: tb.lock_state.load(Ordering::SeqCst),
+                    waiter_null: tb.waiter.load(Ordering::SeqCst, guard).is_null(),
+                    root: p(tb.root.load(Ordering::SeqCst, guard)),
+                    first: p(first),
+                    nodes: v,
+                });
+            }
+            BinEntry::TreeNode(_) => unreachable!("tree node at the head of a bin"),
+        }
+    }
+    let forward = if any_moved && depth < 8 {
+        table_snap(t.next_table(guard), guard, depth + 1).map(Box::new)
+    } else {
+        None
+    };
+    Some(TableSnap {
+        addr,
+        len: t.len(),
+        bins,
+        forward,
+    })
+}
+
+impl<K, V, S> HashMap<K, V, S> {
+    /// Structural dump of the map as seen through `guard`. Emits no hook events.
+    pub fn verif_snapshot<'g>(&'g self, guard: &'g Guard<'_>) -> Snapshot<'g, K, V> {
+        crate::verif::quiet(|| Snapshot {
+            table: table_snap(self.table.load(Ordering::SeqCst, guard), guard, 0),
+            next_table_addr: p(self.next_table.load(Ordering::SeqCst, guard)),
+            transfer_index: self.transfer_index.load(Ordering::SeqCst),
+            count: self.count.load(Ordering::SeqCst),
+            size_ctl: self.size_ctl.load(Ordering::SeqCst),
+        })
+    }
+
+    /// The private `resize_stamp`, for exhaustive arithmetic cross-checks.
+    pub fn verif_resize_stamp(n: usize) -> isize {
+        Self::resize_stamp(n)
+    }
+
+    /// `load_factor!`, for arithmetic cross-checks.
+    pub fn verif_load_factor(n: isize) -> isize {
+        load_factor!(n)
+    }
+
+    /// Addresses of the map's own control words (to name raw-atomic events).
+    pub fn verif_field_addrs(&self) -> [(&'static str, usize); 5] {
+        [
+            ("table", &self.table as *const _ as usize),
+            ("next_table", &self.next_table as *const _ as usize),
+            ("transfer_index", &self.transfer_index as *const _ as usize),
+            ("count", &self.count as *const _ as usize),
+            ("size_ctl", &self.size_ctl as *const _ as usize),
+        ]
+    }
+}
+
+/// Field offsets (bytes from the start of the `Linked<BinEntry>` allocation is not stable, so
+/// offsets are given relative to a reference to the object itself), used by a harness to name
+/// the atomic cell an event address falls into.
+pub fn verif_offsets<K, V>() -> Vec<(&'static str, usize, usize)> {
+    use std::mem::size_of;
+    vec![
+        ("Linked<BinEntry>", size_of::<seize::Linked<BinEntry<K, V>>>(), 0),
+        ("Linked<Table>", size_of::<seize::Linked<Table<K, V>>>(), 0),
+        ("Linked<V>", size_of::<seize::Linked<V>>(), 0),
+    ]
+}
